@@ -219,9 +219,11 @@ fn transform_submodule(
         // (c) Subtype is generic with a concretisation here
 
         // Get base-node for the generic type.
-        let (mut node, req_args) = nodes.get(&typ.ident)
-            .expect("unreachable: parse order should guarantee, that all required modules are already parsed")
-            .clone();
+        // A local generic binding cannot take arguments itself, thus it is not
+        // part of the already parsed nodes.
+        let Some((mut node, req_args)) = nodes.get(&typ.ident).cloned() else {
+            return Err(ErrorKind::InvalidTypStatement(typ.clone(), Vec::new()).into());
+        };
 
         // Check that the assigment matches all required generics
         if req_args.len() != typ.args.len() {
